@@ -85,9 +85,28 @@ def rule_branch_loop(ctx):
                      for c in walk_own(s))]
     loops = [l for l in loops if not any(isinstance(a, (ast.For, ast.While)) and a is not l and
                                          any(x is l for x in ast.walk(a)) for a in loops)]
-    if len(loops) != 1:
-        raise AnalysisError('Merkle.branch_and_root: expected one level loop appending to branch')
+    if not loops:
+        raise AnalysisError('Merkle.branch_and_root: expected a level loop appending to branch')
+    loops.sort(key=lambda l: l.lineno)
     loop = loops[0]
+    # a second loop that adds levels (natural levels first, padding levels after) is held to the same statement: a padding
+    # level is a single node paired with itself - always a duplicate - so under tsc_format its branch element is the marker
+    from .. import paths as P_
+    for extra in loops[1:]:
+        marks = False
+        for pth in P_.paths(extra.body):
+            for st_, _env in pth.events:
+                if isinstance(st_, ast.Expr) and isinstance(st_.value, ast.Call) and q.callee_name(ctx, bar, st_.value) == f'{BR}.append' \
+                        and st_.value.args and isinstance(st_.value.args[0], ast.Constant):
+                    if any('tsc_format' in df.names_loaded(t) and pol for t, pol, _n in pth.conds if isinstance(t, ast.expr)):
+                        marks = True
+                elif isinstance(st_, ast.Expr) and isinstance(st_.value, ast.Call) and q.callee_name(ctx, bar, st_.value) == f'{BR}.append' \
+                        and st_.value.args and isinstance(st_.value.args[0], ast.IfExp) and 'tsc_format' in df.names_loaded(st_.value.args[0].test):
+                    marks = True
+        ctx.check(marks, 'C12.MARKER', ctx.key(bar, extra, 'further level loop'),
+                  'a further loop adding levels to the branch decides the TSC duplicate marker as well',
+                  'a further loop appends levels to the branch without ever appending the TSC duplicate marker: the levels it adds (above '
+                  'the natural tree every node is paired with itself) come out as hashes in TSC format', loc=ctx.loc(bar, extra))
     appends = [q.stmt(c) for c in q.calls_named(ctx, bar, f'{BR}.append')]
     ok, wit = pr.once_per_iteration(cfg, loop, [cfg.node(s) for s in appends])
     ctx.check(ok, 'C12.ONEAPPEND', ctx.key(bar, loop, 'branch.append'),
